@@ -121,6 +121,15 @@ def _dump_keys(f):
     raise AnalysisError(f"{f.qual}: dump dictionary literal `new_dict` not found")
 
 
+def _loaded_dict_name(loader) -> str:
+    """Name of the local that receives dict_from_yaml(path) in from_yaml."""
+    for st in walk_shallow(loader.node):
+        if isinstance(st, ast.Assign) and len(st.targets) == 1 and isinstance(st.targets[0], ast.Name) and isinstance(st.value, ast.Call) \
+                and call_name(st.value) == "dict_from_yaml":
+            return st.targets[0].id
+    raise AnalysisError("from_yaml no longer loads the template dictionary with dict_from_yaml")
+
+
 def r2_dumper_vs_constructor(ctx, rid):
     pairs = [("from_circuit", FC, "CircuitTemplate"), ("from_node", FG, "OperatorGraphTemplate"), ("from_operator", FO, "OperatorTemplate")]
     for fn, rel, cls in pairs:
@@ -142,8 +151,9 @@ def r2_dumper_vs_constructor(ctx, rid):
                                           f"round trip", {"keys": keys}, label=f"{fn}: writes `{p}`")
     # the loader instantiates with exactly the loaded dictionary, name = template key
     loader = ctx.repo.get_func(FT, "from_yaml")
+    loaded = _loaded_dict_name(loader)
     inst = [c for c in walk_shallow(loader.node) if isinstance(c, ast.Call) and isinstance(c.func, ast.Name) and c.func.id == "cls"]
-    if len(inst) == 1 and len(inst[0].keywords) == 1 and inst[0].keywords[0].arg is None and ast.unparse(inst[0].keywords[0].value) == "template_dict":
+    if len(inst) == 1 and len(inst[0].keywords) == 1 and inst[0].keywords[0].arg is None and ast.unparse(inst[0].keywords[0].value) == loaded:
         ctx.ok(rid, loader, inst[0], "known template classes are instantiated with exactly the loaded dictionary", nontrivial=False)
     else:
         raise AnalysisError(f"{rid}: from_yaml no longer instantiates with cls(**template_dict)")
@@ -155,12 +165,24 @@ def r3_derived_inherits_everything(ctx, rid):
         upd = c.methods.get("update_template")
         if upd is None:
             raise AnalysisError(f"anchor vanished: {cls}.update_template")
-        calls = [x for x in walk_shallow(upd.node) if isinstance(x, ast.Call) and isinstance(x.func, ast.Attribute)
-                 and x.func.attr == "__class__"]
+        def _is_self_ctor(x):
+            fn = x.func
+            if isinstance(fn, ast.Attribute) and fn.attr == "__class__" and isinstance(fn.value, ast.Name) and fn.value.id == upd.self_name:
+                return True
+            if isinstance(fn, ast.Call) and isinstance(fn.func, ast.Name) and fn.func.id == "type" and len(fn.args) == 1 \
+                    and isinstance(fn.args[0], ast.Name) and fn.args[0].id == upd.self_name:
+                return True
+            return isinstance(fn, ast.Name) and fn.id == cls
+        calls = [x for x in walk_shallow(upd.node) if isinstance(x, ast.Call) and _is_self_ctor(x)]
         if len(calls) != 1:
-            raise AnalysisError(f"{rid}: {cls}.update_template: expected one self.__class__(...) call, found {len(calls)}")
+            raise AnalysisError(f"{rid}: {cls}.update_template: expected one constructor call of its own class, found {len(calls)}")
         call = calls[0]
-        kws = {k.arg: k.value for k in call.keywords}
+        if any(isinstance(a, ast.Starred) for a in call.args) or any(k.arg is None for k in call.keywords):
+            raise AnalysisError(f"{rid}: {cls}.update_template forwards through */** (unrecognised form)")
+        # positional arguments are matched to the constructor's parameter order
+        ctor_pos = [p_ for p_ in init.params if p_ != init.self_name]
+        kws = {ctor_pos[i]: a for i, a in enumerate(call.args) if i < len(ctor_pos)}
+        kws.update({k.arg: k.value for k in call.keywords})
         for p in content + ["name", "path", "description"]:
             if p not in init.params:
                 continue
@@ -173,6 +195,10 @@ def r3_derived_inherits_everything(ctx, rid):
             names = {n.id for n in ast.walk(v) if isinstance(n, ast.Name)}
             attrs = {n.attr for n in ast.walk(v) if isinstance(n, ast.Attribute)}
             okv = p in names or p in attrs or (p == "description" and "__doc__" in attrs)
+            if not okv and isinstance(v, ast.Name):
+                dv = single_def_value(ctx, upd, v)
+                if dv is not None:
+                    okv = p in {n.attr for n in ast.walk(dv) if isinstance(n, ast.Attribute)} or p in {n.id for n in ast.walk(dv) if isinstance(n, ast.Name)}
             if okv:
                 ctx.ok(rid, upd, call, f"`{p}` is forwarded (update value or the base's own)", label=f"{cls}: forwards `{p}`")
             else:
@@ -276,21 +302,26 @@ def r6_loader_derivation(ctx, rid):
     recv = c.func.value
     v = single_def_value(ctx, f, recv) if isinstance(recv, ast.Name) else None
     ok_recv = isinstance(v, ast.Call) and call_name(v) == "from_yaml"
-    ok_args = len(c.keywords) == 1 and c.keywords[0].arg is None and ast.unparse(c.keywords[0].value) == "template_dict" and not c.args
+    loaded = _loaded_dict_name(f)
+    ok_args = len(c.keywords) == 1 and c.keywords[0].arg is None and ast.unparse(c.keywords[0].value) == loaded and not c.args
     if ok_recv and ok_args:
         ctx.ok(rid, f, c, "a template with a non-class base is derived from the (recursively loaded) base with all its own entries")
     else:
         ctx.violation(rid, f, c, "a derived template is not built as from_yaml(base).update_template(**template_dict)")
     # base key removed before the dict is used as constructor arguments
     pops = [x for x in walk_shallow(f.node) if isinstance(x, ast.Call) and call_name(x) == "pop" and x.args and isinstance(x.args[0], ast.Constant)
-            and x.args[0].value == "base"]
+            and x.args[0].value == "base" and isinstance(x.func, ast.Attribute) and ast.unparse(x.func.value) == loaded]
     if pops:
         ctx.ok(rid, f, pops[0], "`base` is removed from the loaded dictionary before it is forwarded", nontrivial=False)
     else:
         ctx.violation(rid, f, f.node, "`base` is not removed from the loaded dictionary", label="base popped")
     # the relative base path is completed against the path of the template that names it
     comp = [x for x in walk_shallow(f.node) if isinstance(x, ast.Call) and call_name(x) == "_complete_template_path"]
-    if comp and [ast.unparse(a) for a in comp[0].args] == ["base", "path"]:
+    base_name = None
+    for st in walk_shallow(f.node):
+        if isinstance(st, ast.Assign) and len(st.targets) == 1 and isinstance(st.targets[0], ast.Name) and pops and st.value is pops[0]:
+            base_name = st.targets[0].id
+    if comp and [ast.unparse(a) for a in comp[0].args] == [base_name, f.params[0]]:
         ctx.ok(rid, f, comp[0], "a relative base reference is completed against the referring template's path", nontrivial=False)
     else:
         ctx.violation(rid, f, f.node, "relative base reference is not completed against the referring template's path", label="base path completion")
